@@ -40,6 +40,7 @@ FIXED = [
  ("fix: a binding made inside a named loop on an abandoned path", ["C02","C03"], "`find all at least 1 (('a' = x 'b') or ('a' 'c')) named lp` on 'ac' reported lp/0/x='a': the saved choice point shared the named loop's per-iteration variable maps with the abandoned path"),
  ("fix: a named loop refuses an empty mandatory iteration", ["C01","C02"], "`find all at least 2 (maybe 'a') named lp` on 'a' found nothing although the same loop without a name matches [0,1): the zero-length-iteration guard also rejected required iterations"),
  ("fix: compiling a loop costs time and memory in proportion to its minimum count", ["C08"], "Compile(\"find all exactly 2147483647 'a'\") never returned and exhausted memory: the mandatory iterations of a loop were unrolled"),
+ ("fix: a symbolic link to a directory, or a dangling one, is listed as a file", ["C20"], "pattern `*` in a directory holding a symbolic link to a directory listed the link as a file (DirEntry.IsDir() is false for every link); found when symbolic links were added to the C20 trees after seeded change C20-r4B"),
  ("fix: `*` in a file pattern", ["C20"], "`*.txt` did not select `a.txt.txt`, `a*b` did not select `abxb` (first-occurrence search)"),
  ("fix: ParsePath no longer prints", ["C18"], "`vore -com .. -files a.txt -json` printed `[{entryType:2 value:a.txt}]` before the JSON document"),
  ("fix: -json-file / -formatted-json-file open", ["C18"], "`vore .. -json-file out.json` panicked: truncate out.json: invalid argument (file opened read-only)"),
